@@ -75,7 +75,10 @@ BS0 = ["DUP1 AND", "PUSH 0 ADD", "PUSH 1 MUL", "PUSH 0 MLOAD PUSH 0 MSTORE", "PU
        # incoming stack: lower position bounds along order tuples, tight length bound and one step of slack
        "SLOAD ADD PUSH 7 SSTORE", "SLOAD ADD PUSH 7 SSTORE DUP1 POP", "MLOAD ADD PUSH 7 MSTORE",
        # a constant of five and of eight bytes needed twice: the soft weights of wide pushes under the size criterion
-       "PUSH ffffffffff PUSH ffffffffff", "PUSH ffffffffffffffff PUSH ffffffffffffffff ADD"]
+       "PUSH ffffffffff PUSH ffffffffff", "PUSH ffffffffffffffff PUSH ffffffffffffffff ADD",
+       # two stores (a store and a load) that must keep their order, with slack: the order constraints of the direct memory
+       # encoding when position bounds are switched off (the second access in the first slot, the first one in the last slot)
+       "SWAP2 SWAP1 SWAP3 SWAP1 SSTORE SSTORE", "SWAP2 SWAP1 SWAP3 SWAP1 MSTORE MSTORE", "SWAP1 SWAP1 SSTORE SLOAD", "SWAP1 SWAP1 MSTORE MLOAD"]
 
 
 def small_blocks(tier, seed):
